@@ -266,3 +266,61 @@ func Prop(name string) pbt.Prop[Case] {
 		Check: check,
 	}
 }
+
+// ---------------------------------------------------------------------------
+// capacity sweep: the result of Thrift -> JSON must not depend on the capacity of the caller's buffer
+
+func checkSweep(c *pbt.Ctx, cs Case) {
+	comp, err := tm.CompileUniverse(cs.U, thrift.Options{})
+	if err != nil {
+		c.Failf("harness-idl", "IDL rejected: %v\n%s", err, cs.U.Render())
+	}
+	enc := tm.Encode(cs.V)
+	data := append(make([]byte, 0, len(enc)), enc...)
+	o := conv.Options{Int642String: cs.O.Int642String, ByteAsUint8: cs.O.ByteAsUint8, NoBase64Binary: cs.O.NoBase64Binary,
+		EnableValueMapping: cs.O.ValueMapping, DisallowUnknownField: cs.O.DisallowUnknown, UseNativeSkip: cs.O.UseNativeSkip}
+	cv := t2j.NewBinaryConv(o)
+	ctx := context.Background()
+	big := make([]byte, 0, 1<<20)
+	var err0 error
+	if !c.Protect("", func() { err0 = cv.DoInto(ctx, comp.Root, data, &big) }) {
+		return
+	}
+	hi := len(big) + 40
+	if hi > 2600 {
+		hi = 2600
+	}
+	c.Step("t2j.DoInto with every capacity 0..%d (large-buffer result: %d bytes, err=%v)", hi, len(big), err0)
+	for capn := 0; capn <= hi; capn++ {
+		buf := make([]byte, 0, capn)
+		var e error
+		if !c.Protect("", func() { e = cv.DoInto(ctx, comp.Root, data, &buf) }) {
+			return
+		}
+		if (e == nil) != (err0 == nil) || (e == nil && !bytes.Equal(buf, big)) {
+			if c.Fail("", "capacity-dependent", "t2j.DoInto with capacity %d: err=%v, %d bytes; with a large buffer: err=%v, %d bytes\n%s\nvs\n%s", capn, e, len(buf), err0, len(big), trunc(buf), trunc(big)) {
+				return
+			}
+		}
+	}
+	if !bytes.Equal(data, enc) {
+		c.Failf("input-modified", "t2j.DoInto modified its input buffer")
+	}
+	c.NonTrivial()
+	if err0 != nil {
+		c.Class("rejected")
+	}
+	var ft features
+	scan(cs.V, cs.U.Root, cs.U, false, &ft)
+	if ft.escapes {
+		c.Class("string-with-escapes")
+	}
+}
+
+// SweepProp: the messages of Prop, converted into caller buffers of every capacity.
+func SweepProp(name string) pbt.Prop[Case] {
+	p := Prop(name)
+	p.Rule = "the IDLs, messages and option sets of TestThriftToJSON (all double classes, integers at their boundaries, strings whose JSON text is up to six times their length, api.js_conv fields, undeclared fields); t2j.DoInto into caller buffers of every capacity from 0 to the output size + 40 (at most 2600): error-ness and text must equal the conversion into a 1 MiB buffer, no panic; every case is non-trivial"
+	p.Check = checkSweep
+	return p
+}
